@@ -95,6 +95,43 @@ def spec_strategy(draw, max_depth=2):
     return spec
 
 
+@st.composite
+def ens_recycle_spec(draw):
+    """fail-fast ensembles with a slow member, callers issuing requests back to back so that futures are freed and their identities can be
+    recycled while the slow member still works on the previous holder"""
+    k = draw(st.integers(2, 3))
+    members = [{'t': 'w', 'tag': chr(ord('A') + i), 'n': draw(st.sampled_from([1, 1, 2])), 'pre': False} for i in range(k)]
+    tree = {'t': 'ens', 'ff': draw(st.sampled_from([True, True, False])), 'ch': members}
+    if draw(st.integers(0, 2)) == 0:
+        tree = {'t': 'seq', 'ch': [tree, {'t': 'w', 'tag': 'Z', 'n': 1, 'pre': False}]}
+    nreq = draw(st.integers(2, 12))
+    reqs = {}
+    tags = [m['tag'] for m in members]
+    for rid in range(nreq):
+        plan = {'d': {}, 'f': {}, 'pf': {}, 'r': 0}
+        slow = draw(st.sampled_from(tags))
+        plan['d'][slow] = draw(st.sampled_from([0.005, 0.02, 0.05]))
+        if draw(st.integers(0, 1)) == 0:
+            failing = draw(st.sampled_from([t for t in tags if t != slow] or tags))
+            plan['f'][failing] = draw(st.sampled_from(sv.EXC_NAMES))
+        reqs[str(rid)] = plan
+    ncallers = draw(st.integers(1, 3))
+    callers = [[] for _ in range(ncallers)]
+    for rid in range(nreq):
+        tsel = draw(st.sampled_from(['long', 'long', 'short']))
+        timeout = 'long' if tsel == 'long' else draw(st.sampled_from([0.001, 0.004, 0.01]))
+        callers[draw(st.integers(0, ncallers - 1))].append({'rid': rid, 'timeout': timeout, 'bp': False, 'think': draw(st.sampled_from([0, 0, 0, 0.001, 0.01]))})
+    return {
+        'tree': tree,
+        'capacity': 32,
+        'reqs': reqs,
+        'callers': [c for c in callers if c],
+        'streams': [],
+        'alloc_bits': draw(st.lists(st.sampled_from([1, 1, 1, 0]), min_size=4, max_size=12)),
+        'sched': draw(sched_strategy(max_len=200, est_steps=3000, depth=4)),
+    }
+
+
 def judge_call(rec, tree, reqs, capacity, prop_clauses):
     """returns None or (clause, detail)"""
     rid = rec['rid']
@@ -208,4 +245,5 @@ RULE = (
 
 FAMILIES = [
     Family('F1_server', 'sim', spec_strategy(), run_case, quick=2500, thorough=120_000, shards_quick=12, rule=RULE, setup=_warm),
+    Family('F2_ensemble_id_reuse', 'sim', ens_recycle_spec(), run_case, quick=1500, thorough=60_000, shards_quick=4, rule='fail-fast / plain ensembles with one slow member per request, back-to-back callers, identity allocator biased to recycle freed ids; same oracle as F1. Non-trivial as F1.', setup=_warm),
 ]
